@@ -2144,6 +2144,24 @@ def _to_native(v):
     raise OutOfSubset("native conversion")
 
 
+@handler("json.load")
+def _json_load(it, self, args, kw):
+    """json.load(fh): JSONDecodeError, or SOME JSON-shaped value that is a function of the text of the file (the same text gives the same
+    value within a path); the file it was read from is recorded in the trace."""
+    from . import plain
+    fh = args[0]
+    txt = _s().file_method(it, fh, "read", [], {})
+    _s().note(it, "json.load")
+    if it.branch(it.fresh_bool("json_decode_error").e):
+        it.raise_(_json_error(), "json")
+    cache = it.__dict__.setdefault("json_load_cache", {})
+    k = z3.simplify(txt.e).sexpr()
+    if k not in cache:
+        cache[k] = plain.fresh_json(it, it.fresh_name("json_load"))
+    it.trace.append(("json.load", fh.f["path"], txt, cache[k]))
+    return cache[k]
+
+
 @handler("json.loads")
 def _json_loads(it, self, args, kw):
     import json
